@@ -26,6 +26,8 @@ def is_acquire(s: ast.stmt):
 
 def check(ctx):
     repo = ctx.repo
+    ctx.rule("R15.8", "the partial solution can be assembled from a file with zero recorded steps: every aggregation of a "
+                      "loop-filled list in the record reader is guarded against the empty list", 4)
     ctx.rule("R15.6", "an abandoned update() cannot have touched the state the Runner still holds: solver outputs are fresh arrays", 12)
     ctx.rule("R15.7", "... and update() never writes into the arrays it is handed", 1)
     ctx.rule("R15.1", "no exception edge leaves a file acquisition while an earlier file of the same attempt is still open and on disk", 1)
@@ -42,6 +44,7 @@ def check(ctx):
     from ..effects import fresh_outputs, input_purity
     fresh_outputs(ctx, "R15.6", "after Ctrl-C inside update() the Runner writes (or keeps) the previous step's state, part of which has already been overwritten by the abandoned step: the file's last frame is not the state of any step")
     input_purity(ctx, "R15.7", modules=("tdgl.solver", "tdgl.finite_volume"), min_functions=60, consequence='an update() abandoned by an interrupt has already modified the arrays of the previous state that the Runner goes on to save')
+    empty_records(ctx)
     ctx.assume("h5py.File.close() flushes; the OS honours exclusive creation")
     ctx.decline("SWMR semantics, OS-level file locking, asynchronous interrupts between bookkeeping statements")
 
@@ -383,3 +386,56 @@ def frame_atomicity(ctx):
            consequence="an I/O error (or interrupt) while writing frame k leaves data/<k> with attributes but missing datasets; "
                        "get_data_range counts it and loading the last frame fails",
            witness={"input": "OSError injected into the third group[key] = value of frame 2"})
+
+
+# ---------------------------------------------------------------------------
+# R15.8 a run stopped in its first step still yields a Solution
+# ---------------------------------------------------------------------------
+
+def empty_records(ctx):
+    """A run cancelled (or failing) inside its first step writes only frame 0, which has no running_state: the lists the reader
+    fills per frame are then empty.  np.concatenate([]) raises, so every aggregation must be guarded by the list's truthiness
+    (the reader itself shows the idiom: `if mus: mu = np.concatenate(mus, ...)`)."""
+    repo = ctx.repo
+    f = repo.func("tdgl.solution.data", "DynamicsData.from_hdf5")
+    fn = f.node
+    pm = parent_map(fn)
+    # lists initialised empty and appended to only inside loops
+    lists = {n.targets[0].id for n in own_nodes(fn) if isinstance(n, ast.Assign) and len(n.targets) == 1 and isinstance(n.targets[0], ast.Name)
+             and isinstance(n.value, ast.List) and not n.value.elts}
+    loop_filled = set()
+    for c in own_nodes(fn):
+        if isinstance(c, ast.Call) and isinstance(c.func, ast.Attribute) and c.func.attr in ("append", "extend") \
+                and isinstance(c.func.value, ast.Name) and c.func.value.id in lists:
+            st = c
+            while not isinstance(st, ast.stmt):
+                st = pm[id(st)][0]
+            if any(isinstance(g, (ast.For, ast.While)) for g, _ in guards_of(fn, st, pm)):
+                loop_filled.add(c.func.value.id)
+    if len(loop_filled) < 2:
+        raise AnalysisError(f"DynamicsData.from_hdf5 no longer fills per-frame lists in a loop ({sorted(loop_filled)})")
+    aggs = 0
+    for c in own_nodes(fn):
+        if isinstance(c, ast.Call) and norm(c.func).split(".")[-1] in ("concatenate", "stack", "hstack", "vstack", "max", "min") and c.args \
+                and isinstance(c.args[0], ast.Name) and c.args[0].id in loop_filled:
+            L = c.args[0].id
+            aggs += 1
+            st = c
+            while not isinstance(st, ast.stmt):
+                st = pm[id(st)][0]
+            guarded = any(isinstance(g, ast.If) and br == "true" and norm(g.test) in (L, f"len({L})", f"len({L}) > 0", f"{L} != []")
+                          for g, br in guards_of(fn, st, pm))
+            # or a conditional expression `agg(L) if L else <empty>`
+            par = pm[id(c)][0]
+            while not isinstance(par, ast.stmt):
+                if isinstance(par, ast.IfExp) and norm(par.test) in (L, f"len({L})", f"len({L}) > 0") and any(x is c for x in ast.walk(par.body)):
+                    guarded = True
+                par = pm[id(par)][0]
+            ctx.ob("R15.8", f"L{c.lineno}: {norm(c)[:60]} is guarded against an empty `{L}`", guarded, where=f.fq,
+                   construct=f"aggregation of the per-frame list `{L}` without an emptiness guard", loc=loc(f, c),
+                   message=f"`{norm(c)[:60]}` raises on an empty list, and `{L}` is empty when no frame carries per-step records",
+                   consequence="a run cancelled with Ctrl-C (or failing) inside its first step, or a run with solve_time=0, writes only frame 0: "
+                               "tdgl.solve() then ends with 'ValueError: need at least one array to concatenate' instead of returning the partial Solution",
+                   witness={"input": "KeyboardInterrupt injected into the first update of the recorded stage (pause_on_interrupt=False)"})
+    if aggs < 2:
+        raise AnalysisError("DynamicsData.from_hdf5 no longer aggregates its per-frame lists")
